@@ -360,6 +360,15 @@ func lookupJWK(next nextHTTP) nextHTTP {
 						kidPrefix, kid))
 					return
 				}
+				// Old accounts are bound to their provisioner too, as far as the record says.
+				reqProv := acme.MustProvisionerFromContext(ctx)
+				if (acc.ProvisionerID != "" && acc.ProvisionerID != reqProv.GetID()) ||
+					(acc.ProvisionerID == "" && acc.ProvisionerName != "" && acc.ProvisionerName != reqProv.GetName()) {
+					render.Error(w, r, acme.NewError(acme.ErrorUnauthorizedType,
+						"account provisioner does not match requested provisioner; account provisioner = %s, requested provisioner = %s",
+						acc.ProvisionerName, reqProv.GetName()))
+					return
+				}
 			}
 			ctx = context.WithValue(ctx, accContextKey, acc)
 			ctx = context.WithValue(ctx, jwkContextKey, acc.Key)
